@@ -24,6 +24,7 @@ RULE = ('small reference images (<= ~2 KB) of uamiv, lateral boundary, '
         'inside-marker / mid-record / record-boundary / step-boundary. '
         'evaluations = prefixes opened; non-trivial = every prefix (each is '
         'a distinct crash point); distinct = digest of (image spec, cut).')
+RULE += (" Wind images up to 4 steps; gridded prefixes are also opened with mode='r+' (what is then readable is judged the same way; the file size afterwards is a note, not a verdict).")
 ASSUMPTIONS = [
     'payloads are distinct and non-zero, so zero-filled, shifted or '
     'fabricated values cannot coincide with the right ones',
